@@ -901,6 +901,10 @@ def _prim_task(spec, repo, seed, n):
 # sequences on ONE geometry object: queries, an edit that removes the column just found, queries again.
 # The property quantifies over all geometries, refined / edited ones included, and an answer must not depend on
 # what the object was asked before (state kept between calls), on other live geometries, or change the arguments.
+class StopSequence(Exception):
+    pass
+
+
 def seq_task(args):
     spec, repo, seed, n = args
     try:
@@ -1001,8 +1005,14 @@ def run_sequence(spec, repo, seed=0, rounds=3, steps=None):
             o.column_containing_point(np.array([float(G.bounds[0]) + 10.0, float(G.bounds[1]) + 4.0]))
         elif kind in ('refine', 'delete'):
             col = G.cols[G.order[step[1]]]
-            if kind == 'refine': g.refine([col])
-            else: g.delete_column(col.name)
+            try:
+                if kind == 'refine': g.refine([col])
+                else: g.delete_column(col.name)
+            except Exception:
+                # the edit itself is refused (e.g. refine() cannot find the boundary of a mesh that earlier deletions
+                # cut in two): not a matter of this property; the object may be half edited, so the sequence ends here
+                cnt['seq_edit_refused'] += 1
+                raise StopSequence()
             last_edit[0] = kind
             cnt['seq_edits'] += 1
         elif kind == 'reread':
@@ -1022,8 +1032,11 @@ def run_sequence(spec, repo, seed=0, rounds=3, steps=None):
 
     last_edit = ['construction']
     if steps is not None:
-        for st in steps:
-            do(list(st), ctx())
+        try:
+            for st in steps:
+                do(list(st), ctx())
+        except StopSequence:
+            pass
         return out
     lays = g.layerlist
     for _ in range(rounds):
@@ -1047,8 +1060,11 @@ def run_sequence(spec, repo, seed=0, rounds=3, steps=None):
         oldpoly = G.polyg[i]
         # ... the column is removed from the geometry ...
         u = rng.random()
-        if u < 0.15 and spec.get('translate') is None: do(['reread'], G)
-        else: do(['refine' if u < 0.65 else 'delete', r], G)
+        try:
+            if u < 0.15 and spec.get('translate') is None: do(['reread'], G)
+            else: do(['refine' if u < 0.65 else 'delete', r], G)
+        except StopSequence:
+            break
         G = ctx()
         # ... and the first thing asked afterwards is a 3-D point inside X's old footprint (then 2-D aids, a track)
         for k in range(3):
